@@ -184,13 +184,14 @@ REGEXES: Dict[str, Tuple[str, Callable[[str], bool], Callable[[str], bool]]] = {
     'a.': ("'a.'", _search_a_dot, _full_a_dot),
     '\\.': ("'\\.'", _search_esc_dot, _f_lit('.')),
     'ab': ("ab", _s_lit('ab'), _f_lit('ab')),
+    'b': ("b", _s_lit('b'), _f_lit('b')),
 }
 REGEX_PATTERN = {'a': 'a', 'dot': '.', '^a': '^a', 'a$': 'a$', 'a|b': 'a|b', '[ab]+': '[ab]+', '.*': '.*',
-                 'a.': 'a.', '\\.': '\\.', 'ab': 'ab'}
+                 'a.': 'a.', '\\.': '\\.', 'ab': 'ab', 'b': 'b'}
 
 # regexes for which `replace` has a hand-written meaning: every non-overlapping occurrence,
 # left to right, is replaced (the manual's "replaces every string matching REGEX")
-_REPLACE_LITERAL = {'a': 'a', 'ab': 'ab', '\\.': '.'}
+_REPLACE_LITERAL = {'a': 'a', 'b': 'b', 'ab': 'ab', '\\.': '.'}
 
 
 def ref_replace_in(rx: str, repl: str, s: str) -> str:
@@ -316,7 +317,8 @@ def ref_transformer(t, s: str, env: Env) -> str:
         return ref_lower(s)
     if k == 'replace':
         _, preserve, sel, rx, repl = t
-        repl_s = env.e if repl == 'E' else repl
+        # a literal replacement is a template: backslash-n denotes new-line (no other escapes are used here)
+        repl_s = env.e if repl == 'E' else repl.replace('\\n', '\n')
         out = []
         n = 0
         for line in ref_lines(s):
